@@ -7,7 +7,20 @@ from gen import server_hist
 IMPORTS_FMT = 'From VT Require Import Check.SrvCheck Check.%sCheck.'
 
 
+def expand(ops):
+    """Model-side view of a history: a nested redelivery is the message twice."""
+    out = []
+    for o in ops:
+        if o[0] == 'msg_nested':
+            out.append(('msg', o[1], o[2]))
+            out.append(('msg', o[1], o[2]))
+        else:
+            out.append(o)
+    return out
+
+
 def hcase_term(cfg, ops, results, dump):
+    ops = expand(ops)
     ops_t = [srv.c_op(o, tbl) for o, (effs, tbl) in zip(ops, results)]
     obs_t = [coqio.clist([srv.c_eff(e) for e in effs]) for effs, _ in results]
     return '(mkH %s %s %s %s)' % (srv.c_cfg(cfg), coqio.clist(ops_t), coqio.clist(obs_t), srv.c_dump(dump))
@@ -42,6 +55,7 @@ def run_histories(chk, name, histories, modes=('sync', 'async'), nontrivial=None
             chk.count(1, key, {'mode': mode, 'ops': [repr(o)[:90] for o in ops[:8]]} if i < 2 else None)
             for o in ops:
                 chk.dist('op ' + o[0])
+            ops = expand(ops)
     codes, errors = coqio.eval_cases(name, IMPORTS_FMT % name.upper(), '', 'hcase', cases, name + '_eval', shard=shard)
     chk.traces_validated += len(cases)
     for e in errors:
